@@ -375,6 +375,20 @@ theorem nih_rxRstX (lx : LX) (s mid : Nat) (h : NIH lx.l) : NIH (rxRstX lx s mid
     · simpa using nih_remove_release h s rest
   · simpa using nih_rxRst lx.l s mid h
 
+theorem nih_rxAckP (l : L) (s mid : Nat) (dup : Bool) (h : NIH l) : NIH (rxAckP l s mid dup) := by
+  unfold rxAckP
+  simp only []
+  split
+  · exact nih_rxAck l s mid h
+  · exact (nih_rxAck l s mid h).of_sess rfl
+
+theorem nih_disconnectP (p : Proto) (l : L) (s : Nat) (h : NIH l) : NIH (disconnectP p l s) := by
+  unfold disconnectP
+  have hd := nih_disconnect l s h
+  cases p with
+  | udp => exact hd
+  | dtls => exact hd.of_frame (Frame.setS _ _ _) (fun hlt => by rw [getS_setS_same hlt]; exact Blocked.of_not_est rfl)
+
 /-- `NIH` is an invariant of the extended model (given `WF`) -/
 theorem nihX_step (lx : LX) (e : EvX) (hw : WF lx.l) (h : NIH lx.l) : NIH (stepX lx e).l := by
   cases e with
@@ -405,7 +419,7 @@ theorem nihX_step (lx : LX) (e : EvX) (hw : WF lx.l) (h : NIH lx.l) : NIH (stepX
     | connect s => simpa [stepX] using nih_connected lx.l s h
     | disconnect s =>
       simp only [stepX]; split
-      · simpa using nih_disconnect lx.l s h
+      · simpa using nih_disconnectP _ lx.l s h
       · exact h
   | submitT s con mid r tok => simpa [stepX] using nih_submitT lx.l s con mid r tok h
   | icmp s =>
@@ -413,6 +427,10 @@ theorem nihX_step (lx : LX) (e : EvX) (hw : WF lx.l) (h : NIH lx.l) : NIH (stepX
     · exact nih_prepareCoreX _ (by simpa using wf_icmp _ _ hw) (by simpa using nih_icmp _ _ h)
     · exact h
   | keepalive secs => exact h
+  | rxAckP s mid tok =>
+    simp only [stepX]; split
+    · exact nih_prepareCoreX _ (by simpa using wf_rxAckP _ _ _ _ hw) (by simpa using nih_rxAckP _ _ _ _ h)
+    · exact h
 
 theorem nihX_run (evs : List EvX) : ∀ (lx : LX), WF lx.l → NIH lx.l → NIH (runX lx evs).l := by
   induction evs with
